@@ -471,7 +471,7 @@ func checkC03(c *Ctx, r *Report) {
 			r3.Check(w == "" && len(rels) >= 1, fnK+": no error exit after the transient charge was released", f.Pos(), n+1, "", "", w)
 			// and the edge list is replaced on every success path
 			for _, ret := range successReturns(f) {
-				w, n := (&Cut{Fn: f, Target: isInstr(ret), Sep: fieldWritePred(rsT + ".edges")}).Run(c)
+				w, n := (&Cut{Fn: f, Target: isInstr(ret), EdgeCut: failCut(ret), Sep: fieldWritePred(rsT + ".edges")}).Run(c)
 				r3.Check(w == "", fnKey(f)+": success replaces the edge list", instrPos(ret), n+1, "", "", w)
 			}
 		}
